@@ -627,6 +627,22 @@ def s04c_peer_close_unread_data_first(env: Env) -> None:
     _s04(env, "recv,recv,recv,send", b"fromPeer")
 
 
+def s04d_send_eof_after_reset(env: Env) -> None:
+    """(4) TCP: shutdown(SHUT_WR) (send_eof) once the peer's reset has arrived, before anything consumed it: ENOTCONN"""
+    o = env.obs
+    lib, peer = env.stream_pair(tcp=True)
+    tr = _stream_transport(env, lib)
+    o.call("send_all", tr.send_all, b"unread", 1.0)
+    env.settle()
+    peer.close()  # never read: the peer's stack answers with a reset
+    env.settle()
+    o.call("raw shutdown(SHUT_WR) after the reset arrived", lib.shutdown, socket.SHUT_WR)
+    o.call("send_eof", tr.send_eof)
+    o.call("recv", tr.recv, 1024, 0.5)
+    o.call("raw shutdown(SHUT_WR) again", lib.shutdown, socket.SHUT_WR)
+    o.call("close", tr.close)
+
+
 def s05a_sync_full_pipe(env: Env) -> None:
     """(5) blocking send on a full pipe: would-block -> TimeoutError (timeout 0 and small), progress once the peer reads.
     Normalised: how many bytes fit is a buffer-size matter; only 'the peer finally has exactly what was reported sent'."""
@@ -1425,6 +1441,7 @@ SCENARIOS: list[Scenario] = [
     Scenario(s04a_peer_close_unread_recv_first),
     Scenario(s04b_peer_close_unread_send_first),
     Scenario(s04c_peer_close_unread_data_first),
+    Scenario(s04d_send_eof_after_reset),
     Scenario(s05a_sync_full_pipe),
     Scenario(s05b_async_full_pipe),
     Scenario(s06a_async_adapter_sequences),
